@@ -1,5 +1,12 @@
+import os
 import sys
 
-from .oblig import main
+# sympy's term ordering (and with it the running time of some simplifications) depends on the string hash seed: pin it,
+# so that a verdict and its cost are the same on every run
+if os.environ.get("PYTHONHASHSEED") != "0":
+    os.environ["PYTHONHASHSEED"] = "0"
+    os.execv(sys.executable, [sys.executable, "-W", "ignore", "-m", "pyvc"] + sys.argv[1:])
+
+from .oblig import main  # noqa: E402
 
 sys.exit(main())
